@@ -266,6 +266,9 @@ pub enum UserReq {
     /// a file request with caller-chosen strings: kind 0 open, 1 get info, 2 authenticate, 3 read with credentials,
     /// 4 read directory; (kind, path, user name, password)
     FileNamed(u8, String, String, String),
+    /// open a file with every field chosen by the caller: (path, permission bits 0..=8 = world x/w/r, group x/w/r,
+    /// owner x/w/r, authentication key, file size, mode 1 read | 2 write | 3 append, maximum block size)
+    FileOpenWith(String, u16, u32, u32, u16, u16),
     /// READ with several headers: (kind 0 all | 1 range8 | 2 range16 | 3 count8 | 4 count16, group, variation, a, b)
     ReadHeaders(Vec<(u8, u8, u8, u16, u16)>),
 }
@@ -707,6 +710,24 @@ impl MasterSim {
                     )
                     .await
                 ),
+                UserReq::FileOpenWith(path, bits, key, size, mode, block) => {
+                    let set = |x: u16| crate::app::PermissionSet {
+                        execute: x & 1 != 0,
+                        write: x & 2 != 0,
+                        read: x & 4 != 0,
+                    };
+                    let perms = Permissions {
+                        world: set(bits),
+                        group: set(bits >> 3),
+                        owner: set(bits >> 6),
+                    };
+                    let mode = match mode {
+                        1 => FileMode::Read,
+                        2 => FileMode::Write,
+                        _ => FileMode::Append,
+                    };
+                    format!("{:?}", h.open_file(path, AuthKey::new(key), perms, size, mode, block).await)
+                }
                 UserReq::FileWriteBlock(n, last, len) => {
                     let mut b = BlockNumber::default();
                     for _ in 0..n {
